@@ -1,6 +1,7 @@
 package main
 
 import (
+	"sync"
 	"fmt"
 	"go/token"
 	"go/types"
@@ -29,6 +30,10 @@ type World struct {
 	mutScanned     bool
 	overflowFuncs  map[string]bool
 	allFuncs       map[*ssa.Function]bool
+	inlineBudget   int
+	mutFields      map[string]bool
+	mutFieldsDone  bool
+	mu             sync.Mutex
 }
 
 func LoadWorld(repo string, patterns []string, specDir string) (*World, error) {
@@ -83,6 +88,7 @@ func LoadWorld(repo string, patterns []string, specDir string) (*World, error) {
 	w.ct = NewContractTable()
 	w.ct.LoadAll(repo, modulePath, specDir)
 	w.overflowFuncs = map[string]bool{}
+	w.inlineBudget = 60
 	return w, nil
 }
 
@@ -345,4 +351,85 @@ func (w *World) ambientGhost(comp string) bool {
 	}
 	g, ok := w.ct.Ghosts[strings.TrimPrefix(comp, "$")]
 	return ok && g.Ambient
+}
+
+// immutableFieldComp: field heap component "F:<type>.<field>" of an in-repo struct type that is
+// never stored to outside the construction of a fresh object (a local Alloc of the storing
+// function). Such fields keep their value across every call (havoc skips them).
+func (w *World) immutableFieldComp(comp string) bool {
+	if !strings.HasPrefix(comp, "F:"+modulePath) {
+		return false
+	}
+	w.mu.Lock()
+	defer w.mu.Unlock()
+	if !w.mutFieldsDone {
+		w.mutFieldsDone = true
+		w.mutFields = map[string]bool{}
+		markAll := func(t types.Type) {
+			if u, ok := t.Underlying().(*types.Struct); ok {
+				for i := 0; i < u.NumFields(); i++ {
+					w.mutFields["F:"+typeKey(t)+"."+u.Field(i).Name()] = true
+				}
+			}
+		}
+		var rootIsAlloc func(v ssa.Value) bool
+		rootIsAlloc = func(v ssa.Value) bool {
+			switch x := v.(type) {
+			case *ssa.Alloc:
+				return true
+			case *ssa.FieldAddr:
+				return rootIsAlloc(x.X)
+			case *ssa.IndexAddr:
+				return rootIsAlloc(x.X)
+			}
+			return false
+		}
+		for fn := range w.allFuncs {
+			pkg := fn.Pkg
+			if pkg == nil && fn.Origin() != nil {
+				pkg = fn.Origin().Pkg
+			}
+			if pkg == nil && fn.Parent() != nil {
+				p := fn.Parent()
+				for p.Parent() != nil {
+					p = p.Parent()
+				}
+				pkg = p.Pkg
+			}
+			if pkg == nil || !strings.HasPrefix(pkg.Pkg.Path(), modulePath) {
+				continue
+			}
+			for _, b := range fn.Blocks {
+				for _, in := range b.Instrs {
+					st, ok := in.(*ssa.Store)
+					if !ok {
+						continue
+					}
+					if rootIsAlloc(st.Addr) {
+						continue
+					}
+					switch a := st.Addr.(type) {
+					case *ssa.FieldAddr:
+						// every struct on the address chain has this field path written
+						cur := a
+						for {
+							pt := cur.X.Type().Underlying().(*types.Pointer).Elem()
+							u := pt.Underlying().(*types.Struct)
+							w.mutFields["F:"+typeKey(pt)+"."+u.Field(cur.Field).Name()] = true
+							inner, ok := cur.X.(*ssa.FieldAddr)
+							if !ok {
+								break
+							}
+							cur = inner
+						}
+					default:
+						if pt, ok := st.Addr.Type().Underlying().(*types.Pointer); ok {
+							markAll(pt.Elem())
+						}
+					}
+				}
+			}
+		}
+	}
+	return !w.mutFields[comp]
 }
